@@ -239,6 +239,9 @@ def run(ctx):
     ctx.rule('R13e', 'the unknown-character arm appends exactly the policy result; printable-ASCII '
                      'pass-through range is 32..127 + \\n\\r\\t; non_ascii_only skips only code '
                      'points below 128', 3)
+    ctx.rule('R13i', 'every character of the input reaches the encoding loop: the loop runs over the NFC form of '
+                     'the whole input, nothing is cut off before (a dropped character escapes the unknown-'
+                     'character policy, e.g. `fail` does not raise for it)', 1)
     ctx.rule('R13h', 'no call in the encoder package can raise for part of the input alphabet '
                      '(unicodedata.name(c) without default raises ValueError for unnamed code points)', 1)
     ctx.rule('R13g', 'the process-wide built-in rule tables are handed out only copied or wrapped '
@@ -349,6 +352,9 @@ def run(ctx):
                    'non_ascii_only: %s' % why, construct='_check_do_skip_ascii bound')
     # ------------------------------------------------------------ R13f
     c09._module_state(ctx, repo, 'R13f', lambda name: name.startswith('pylatexenc.latexencode'))
+    # ------------------------------------------------------------ R13i (shared with C04 R04f)
+    from . import c04 as _c04
+    _c04.nfc_whole_input(ctx, 'R13i', m, meths['unicode_to_latex'])
     # ------------------------------------------------------------ R13g
     _builtin_table_escape(ctx, repo)
     # ------------------------------------------------------------ R13h
